@@ -1,5 +1,6 @@
 import Deb822Verif.Props.C03Orphan
 import Deb822Verif.Lemmas.DocLinesIndent
+import Deb822Verif.Lemmas.DocLinesConv
 /-!
 # C03 — the flat line grammar tied to `DocS`; kinds of lines; prefixes; white-space-only lines
 
@@ -67,6 +68,32 @@ theorem C03_lookup_lines (ls : List Line) (fnl : Bool) (h : LinesWF ls) :
     · rw [C03_get_first, hpc]
     · rw [C03_getAll_items, hpc]
     · rw [C03_contains, C03_get_first, hpc]; simp
+
+/-- **`LinesWF` is exactly the domain of the C03 theorems**: a line list is well-formed iff the bridge
+    `docOfLines` turns it into a structured document that satisfies `DocS.WF` (what the driver reports
+    as `wf=1`) -/
+theorem C03_lines_wf_iff (ls : List Line) (fnl : Bool) :
+    LinesWF ls ↔ ∃ d, docOfLines ls fnl = some d ∧ d.WF :=
+  docOfLines_wf_iff ls fnl
+
+/-- **`Paragraph::from_str`, on line lists**: it fails with "no paragraphs" when the line list has no
+    field, and otherwise returns a paragraph whose items are the first paragraph of `content ls` -/
+theorem C03_paragraph_from_str_lines (ls : List Line) (fnl : Bool) (h : LinesWF ls) :
+    (content ls = [] → paragraphFromStr (render ls fnl) = .error ["no paragraphs"])
+    ∧ ∀ c cs, content ls = c :: cs → ∃ p, paragraphFromStr (render ls fnl) = .ok p ∧ items p = c := by
+  obtain ⟨d, _, hwf, hstr, hc⟩ := C03_lines_complete ls fnl h
+  have hp := C03_paragraph_from_str d hwf
+  rw [hstr] at hp
+  rw [← hc]
+  cases hps : d.paras with
+  | nil =>
+    rw [hps] at hp
+    exact ⟨fun _ => hp, fun c cs e => by simp [DocS.content, hps] at e⟩
+  | cons pg ps =>
+    rw [hps] at hp
+    refine ⟨fun e => by simp [DocS.content, hps] at e, fun c cs e => ⟨pg.1.node, hp, ?_⟩⟩
+    simp only [DocS.content, hps, List.map_cons, List.cons.injEq] at e
+    rw [items_para]; exact e.1
 
 /-! ### 2. the kinds of lines -/
 
@@ -364,6 +391,11 @@ example : ∃ t, readStrict "# lead\n\nSource: foo\n :x é\n# c\nA:\n\n# between
       = "# lead\n\nSource: foo\n :x é\n# c\nA:\n\n# between\nPackage:\tbar".toList := by decide
   rw [e] at h1
   exact ⟨t, h1, by rw [h2]; decide⟩
+
+/-- `C03_paragraph_from_str_lines` on the example: the first paragraph -/
+example : ∃ p, paragraphFromStr (render exLines true) = .ok p
+    ∧ items p = [("Source".toList, "foo\n:x é".toList), ("A".toList, [])] :=
+  (C03_paragraph_from_str_lines exLines true (by decide)).2 _ [[("Package".toList, "bar".toList)]] (by decide)
 
 /-- a continuation line that does not follow a field or continuation line is not well-formed -/
 example : ¬ LinesWF [.field "A".toList [] [], .comment [], .cont [' '] "x".toList] := by decide
